@@ -10,6 +10,9 @@ Open Scope list_scope.
 Section Eval.
 Variable D : tree.
 Variable has_ns : bool.     (* the navigator implements NamespaceURL() *)
+(* getHashCode: instantiated with [hash_code D] (Api.v); the extracted driver
+   passes a per-document table of the same values (Driver.hash_table_correct) *)
+Variable hcode : node -> N.
 (* Go's regexp package is a parameter: None = the pattern does not compile *)
 Variable re_match : string -> string -> option bool.                 (* pattern, s *)
 Variable re_numsubexp : string -> nat.
@@ -127,7 +130,7 @@ Fixpoint dedup_hash (seen : list N) (l : list node) : list node * list N :=
   match l with
   | [] => ([], seen)
   | n :: r =>
-    let h := hash_code D n in
+    let h := hcode n in
     if existsb (N.eqb h) seen then dedup_hash seen r
     else let '(r', s') := dedup_hash (h :: seen) r in (n :: r', s')
   end.
